@@ -1682,6 +1682,48 @@ def comp_eval(prop, tier, comp, work):
 # the loop is entered only through the false edges of run-time tests (not asserts) of length - for index
 # arrays - resp. dimension AND shape equality - for ndarrays -, whose true edges return false.
 # --------------------------------------------------------------------------------------------
+def _eq_atoms(guards, locs):
+    """facts known on a path, independent of spelling: ('ne'|'eq', A, B) for A != B / A == B (either order, negations peeled,
+    single-definition locals looked through) and ('iseq', X, Y, 0|1) for the truth of isequal(X, Y)"""
+    out = set()
+    for g in expand_guards(guards):
+        c, pol = _strip_not(subst_locals(g["cond"], locs).replace(" ", ""), g["pol"])
+        m = re.fullmatch(r"\((.+?)(==|!=)(false|true)\)", c)
+        if m and _balanced(m.group(1)):
+            c, pol = _strip_not(m.group(1), pol if (m.group(2) == "==") == (m.group(3) == "true") else 1 - pol)
+        mi = re.fullmatch(r"(?:::)?(?:nmtools::)?(?:utils::)?(?:detail::)?isequal\((.+)\)", c)
+        if mi:
+            args = split_args(mi.group(1))
+            if len(args) == 2:
+                out.add(("iseq",) + tuple(sorted(args)) + (pol,)); continue
+        if _wraps_whole(c):
+            inner = c[1:-1]; depth = 0
+            for k in range(len(inner) - 1):
+                ch = inner[k]
+                depth += ch == "("; depth -= ch == ")"
+                if depth == 0 and inner[k:k + 2] in ("==", "!="):
+                    A, B = inner[:k], inner[k + 2:]
+                    if _balanced(A) and _balanced(B):
+                        kind = "eq" if (inner[k:k + 2] == "==") == (pol == 1) else "ne"
+                        out.add((kind,) + tuple(sorted((A, B))))
+                    break
+    return out
+
+
+def _balanced(e):
+    d = 0
+    for ch in e:
+        d += ch == "("; d -= ch == ")"
+        if d < 0:
+            return False
+    return d == 0
+
+
+def _mirror(A, B):
+    """B is A with the first operand replaced by the second ($t -> $u): the same quantity of the two operands"""
+    return A != B and (A.replace("$t", "$u") == B or B.replace("$t", "$u") == A)
+
+
 def rule_eqshape(rows, prop):
     findings, samples, n = [], [], 0
     seen = set()
@@ -1692,22 +1734,24 @@ def rule_eqshape(rows, prop):
         if not loops or r.get("sig") in seen:
             continue
         seen.add(r.get("sig")); n += 1
+        locs, _ = single_def_locals(r)
         rets_false = [f for f in r["facts"] if f["k"] == "return" and f["a"] == "false"]
-        def has_ret(pattern):
-            return any(any(g["pol"] == 1 and re.fullmatch(pattern, g["cond"].replace(" ", "")) for g in expand_guards(f.get("g", []))) for f in rets_false)
-        def loop_after(pattern):
-            return all(any(g["pol"] == 0 and re.fullmatch(pattern, g["cond"].replace(" ", "")) for g in expand_guards(l.get("g", []))) for l in loops)
-        index_flavour = any(l["b"].replace(" ", "") == "(%i<nmtools::len($t))" for l in loops)
+        ret_atoms = [_eq_atoms(f.get("g", []), locs) for f in rets_false]
+        loop_atoms = [_eq_atoms(l.get("g", []), locs) for l in loops]
+        def mirrored(atoms, kind, word):
+            return any(a[0] == kind and _mirror(a[1], a[2]) and re.search(word, a[1]) for a in atoms)
+        bound = subst_locals(loops[0]["b"], locs).replace(" ", "")
+        index_flavour = bool(re.search(r"nmtools::len\(\$[tu]\)", bound))
         if index_flavour:
-            pat = r"\(nmtools::len\(\$t\)!=nmtools::len\(\$u\)\)"
-            if not (has_ret(pat) and loop_after(pat)):
+            ok = any(mirrored(a, "ne", r"len\(") for a in ret_atoms) and all(mirrored(a, "eq", r"len\(") for a in loop_atoms)
+            if not ok:
                 findings.append(finding("R-EQSHAPE.length", prop, r, loops[0]["b"], "element loop over index arrays is not preceded by a run-time length test returning false (an assert does not count)", loops[0].get("line")))
         else:
-            pdim = r"\(%t_dim!=%u_dim\)|\(nmtools::len\(%t_shape\)!=nmtools::len\(%u_shape\)\)"
-            pshape = r"\(!(?:::)?nmtools::utils::(?:detail::)?isequal\(%t_shape,%u_shape\)\)"
-            if not (has_ret(pdim) and loop_after(pdim)):
+            okd = any(mirrored(a, "ne", r"dim|len\(") for a in ret_atoms) and all(mirrored(a, "eq", r"dim|len\(") for a in loop_atoms)
+            if not okd:
                 findings.append(finding("R-EQSHAPE.dim", prop, r, loops[0]["b"], "element loop over ndarrays is not preceded by a run-time dimension test returning false", loops[0].get("line")))
-            if not has_ret(pshape):
+            oks = any(any(a[0] == "iseq" and a[3] == 0 and _mirror(a[1], a[2]) and "shape" in a[1] for a in atoms) for atoms in ret_atoms)
+            if not oks:
                 findings.append(finding("R-EQSHAPE.shape", prop, r, loops[0]["b"], "element loop over ndarrays is not preceded by a run-time shape-equality test returning false in this instantiation (e.g. (2,3) vs (3,2) with equal element count)", loops[0].get("line")))
         if len(samples) < 3:
             samples.append("R-EQSHAPE %s" % r.get("sig", "")[:160])
